@@ -583,8 +583,315 @@ fn c03_batch_torn_by_rotation(dir: PathBuf) -> ScenFut<'static> {
     })
 }
 
+fn c09_inverted_bounds_deep_level(dir: PathBuf) -> ScenFut<'static> {
+    Box::pin(async move {
+        let cfg = Cfg { level_count: 4, l0_max_files: 1, max_bytes_for_level: 1 << 20, ..base_cfg() };
+        let t = cfg.open(&dir).map_err(|e| e.to_string())?;
+        // two key-disjoint tables on level 1
+        put(&t, &[(b"m", b"1")]).await?;
+        t.verif_flush().map_err(|e| e.to_string())?;
+        t.verif_compact_once().map_err(|e| e.to_string())?;
+        put(&t, &[(b"b", b"2")]).await?;
+        t.verif_flush().map_err(|e| e.to_string())?;
+        t.verif_compact_once().map_err(|e| e.to_string())?;
+        let r = {
+            let tx = t.begin_with_mode(Mode::ReadOnly).map_err(|e| e.to_string())?;
+            let res = std::panic::catch_unwind(std::panic::AssertUnwindSafe(|| -> Result<Vec<Vec<u8>>, String> {
+                let mut it = tx.range(&b"z"[..], &b"a"[..]).map_err(|e| e.to_string())?;
+                collect_fwd(&mut it)
+            }));
+            match res {
+                Err(_) => Err(format!("range(z, a) over tables on level 1 panicked: {}", crate::panics::take_last())),
+                Ok(Err(e)) => Err(format!("range(z, a) failed: {e}")),
+                Ok(Ok(v)) if !v.is_empty() => Err(format!("range(z, a) lists {:?}", v)),
+                Ok(Ok(_)) => Ok(()),
+            }
+        };
+        close(t).await;
+        r
+    })
+}
+
+fn ver_cfg(index: bool) -> Cfg {
+    Cfg { versioning: true, vlog: true, vlog_threshold: 0, index, ..base_cfg() }
+}
+
+fn hist_list(t: &Tree, lo: &[u8], hi: &[u8], backward: bool, tombstones: bool, ts_range: Option<(u64, u64)>) -> Result<Vec<(Vec<u8>, u64)>, String> {
+    let tx = t.begin_with_mode(Mode::ReadOnly).map_err(|e| e.to_string())?;
+    let mut o = surrealkv::HistoryOptions::new().with_tombstones(tombstones);
+    if let Some((a, b)) = ts_range {
+        o = o.with_ts_range(a, b);
+    }
+    let mut it = tx.history_with_options(lo, hi, &o).map_err(|e| e.to_string())?;
+    let mut out = vec![];
+    let mut ok = if backward { it.seek_last() } else { it.seek_first() }.map_err(|e| e.to_string())?;
+    while ok && it.valid() {
+        out.push((it.key().user_key().to_vec(), it.key().timestamp()));
+        ok = if backward { it.prev() } else { it.next() }.map_err(|e| e.to_string())?;
+    }
+    Ok(out)
+}
+
+async fn set_at(t: &Tree, k: &[u8], v: &[u8], ts: u64) -> Result<(), String> {
+    let mut tx = t.begin_with_mode(Mode::WriteOnly).map_err(|e| e.to_string())?;
+    tx.set_at(k, v, ts).map_err(|e| e.to_string())?;
+    tx.commit().await.map_err(|e| e.to_string())
+}
+
+fn c10_backward_history_stops_at_hidden_key(dir: PathBuf) -> ScenFut<'static> {
+    Box::pin(async move {
+        let t = ver_cfg(false).open(&dir).map_err(|e| e.to_string())?;
+        set_at(&t, b"a", b"1", 10).await?;
+        set_at(&t, b"b", b"2", 20).await?;
+        set_at(&t, b"c", b"3", 30).await?;
+        del(&t, b"c").await?; // hard delete: c has no retained version
+        let fwd = hist_list(&t, b"a", b"z", false, false, None)?;
+        let bwd = hist_list(&t, b"a", b"z", true, false, None)?;
+        close(t).await;
+        let names = |v: &Vec<(Vec<u8>, u64)>| v.iter().map(|(k, _)| String::from_utf8_lossy(k).to_string()).collect::<Vec<_>>();
+        if names(&fwd) != vec!["a", "b"] {
+            return Err(format!("forward history lists {:?}, expected [a, b]", names(&fwd)));
+        }
+        if names(&bwd) != vec!["b", "a"] {
+            return Err(format!("complete backward history traversal over keys a, b, c (c hard-deleted) lists {:?} instead of [b, a]: it stops at the first key that has nothing to list", names(&bwd)));
+        }
+        Ok(())
+    })
+}
+
+fn c10_ts_range_lists_erased_version(dir: PathBuf) -> ScenFut<'static> {
+    Box::pin(async move {
+        let t = ver_cfg(false).open(&dir).map_err(|e| e.to_string())?;
+        set_at(&t, b"k", b"old", 10).await?;
+        {
+            // hard delete at timestamp 20: erases the version at 10 for good
+            let mut tx = t.begin_with_mode(Mode::WriteOnly).map_err(|e| e.to_string())?;
+            tx.delete_with_options(&b"k"[..], &surrealkv::WriteOptions::new().with_timestamp(Some(20))).map_err(|e| e.to_string())?;
+            tx.commit().await.map_err(|e| e.to_string())?;
+        }
+        set_at(&t, b"k", b"new", 30).await?;
+        let all_f = hist_list(&t, b"a", b"z", false, true, None)?;
+        let rng_f = hist_list(&t, b"a", b"z", false, true, Some((5, 15)))?;
+        let rng_b = hist_list(&t, b"a", b"z", true, true, Some((5, 15)))?;
+        close(t).await;
+        if all_f != vec![(b"k".to_vec(), 30)] {
+            return Err(format!("unfiltered history lists {:?}, expected only the version at 30", all_f));
+        }
+        if !rng_f.is_empty() || !rng_b.is_empty() {
+            return Err(format!(
+                "k: set@10, hard delete@20, set@30. History restricted to timestamps [5,15] lists the erased version: forward {:?}, backward {:?} (the timestamp filter is applied before the delete barrier is seen)",
+                rng_f, rng_b
+            ));
+        }
+        Ok(())
+    })
+}
+
+async fn get_at(t: &Tree, k: &[u8], ts: u64) -> Result<Option<Vec<u8>>, String> {
+    let tx = t.begin_with_mode(Mode::ReadOnly).map_err(|e| e.to_string())?;
+    tx.get_at(k, ts).map_err(|e| e.to_string())
+}
+
+fn c10_compaction_resurrects_erased_version(dir: PathBuf) -> ScenFut<'static> {
+    Box::pin(async move {
+        let cfg = Cfg { level_count: 3, l0_max_files: 1, max_bytes_for_level: 1 << 20, ..ver_cfg(false) };
+        let t = cfg.open(&dir).map_err(|e| e.to_string())?;
+        set_at(&t, b"k", b"v1", 10).await?;
+        {
+            let mut tx = t.begin_with_mode(Mode::WriteOnly).map_err(|e| e.to_string())?;
+            tx.delete_with_options(&b"k"[..], &surrealkv::WriteOptions::new().with_timestamp(Some(20))).map_err(|e| e.to_string())?;
+            tx.commit().await.map_err(|e| e.to_string())?;
+        }
+        set_at(&t, b"k", b"v3", 30).await?;
+        let before = get_at(&t, b"k", 15).await?;
+        t.verif_flush().map_err(|e| e.to_string())?;
+        compact_all(&t).await?;
+        let after = get_at(&t, b"k", 15).await?;
+        let hist = hist_list(&t, b"a", b"z", false, true, None)?;
+        close(t).await;
+        if before.is_some() {
+            return Err(format!("before compaction get_at(k, 15) = {:?}, expected None (erased by the delete at 20)", before));
+        }
+        if after.is_some() || hist.len() != 1 {
+            return Err(format!(
+                "k: set@10, hard delete@20, set@30; after flush + compaction get_at(k, 15) = {:?} and history lists {:?}: compaction dropped the delete but kept the version it had erased",
+                after.map(|v| String::from_utf8_lossy(&v).to_string()),
+                hist.iter().map(|(_, ts)| *ts).collect::<Vec<_>>()
+            ));
+        }
+        Ok(())
+    })
+}
+
+fn c10_compaction_drops_version_above_replace(dir: PathBuf) -> ScenFut<'static> {
+    Box::pin(async move {
+        let cfg = Cfg { level_count: 3, l0_max_files: 1, max_bytes_for_level: 1 << 20, ..ver_cfg(false) };
+        let t = cfg.open(&dir).map_err(|e| e.to_string())?;
+        {
+            let mut tx = t.begin_with_mode(Mode::WriteOnly).map_err(|e| e.to_string())?;
+            tx.replace(&b"k"[..], &b"r1"[..]).map_err(|e| e.to_string())?;
+            tx.commit().await.map_err(|e| e.to_string())?;
+        }
+        // timestamps of commit-time writes come from the system clock: use far-future explicit ones after it
+        let far = u64::MAX / 2;
+        set_at(&t, b"k", b"v2", far).await?;
+        set_at(&t, b"k", b"v3", far + 10).await?;
+        let before = get_at(&t, b"k", far + 5).await?;
+        t.verif_flush().map_err(|e| e.to_string())?;
+        compact_all(&t).await?;
+        let after = get_at(&t, b"k", far + 5).await?;
+        close(t).await;
+        if before.as_deref() != Some(&b"v2"[..]) {
+            return Err(format!("before compaction get_at = {:?}, expected v2", before));
+        }
+        if after.as_deref() != Some(&b"v2"[..]) {
+            return Err(format!(
+                "k: replace, then set v2, then set v3 (unlimited retention); after flush + compaction the read at v2's timestamp returns {:?}: the version written AFTER the replace was discarded",
+                after.map(|v| String::from_utf8_lossy(&v).to_string())
+            ));
+        }
+        Ok(())
+    })
+}
+
+fn c10_ts_range_out_of_order_memtable(dir: PathBuf) -> ScenFut<'static> {
+    Box::pin(async move {
+        // index back-end: out-of-order timestamps are allowed
+        let t = ver_cfg(true).open(&dir).map_err(|e| e.to_string())?;
+        set_at(&t, b"k", b"v100", 100).await?;
+        set_at(&t, b"k", b"v50", 50).await?; // written later, stamped earlier; both still in the memtable
+        let all = hist_list(&t, b"a", b"z", false, true, None)?;
+        let rng = hist_list(&t, b"a", b"z", false, true, Some((90, 110)))?;
+        close(t).await;
+        if all.len() != 2 {
+            return Err(format!("unfiltered history lists {:?}, expected both versions", all));
+        }
+        if rng != vec![(b"k".to_vec(), 100)] {
+            return Err(format!("k: set@100 then set@50 (out of order, unflushed); history restricted to [90,110] lists {:?} instead of the version at 100", rng));
+        }
+        Ok(())
+    })
+}
+
+fn c10_retention_drops_replace_barrier(dir: PathBuf) -> ScenFut<'static> {
+    Box::pin(async move {
+        use std::sync::atomic::{AtomicU64, Ordering};
+        let clock = std::sync::Arc::new(crate::e1::ManualClock(AtomicU64::new(1000)));
+        // every table is "too big" for its level, so compaction pushes data down one level per round
+        let cfg = Cfg { level_count: 4, l0_max_files: 1, max_bytes_for_level: 64, level_multiplier: 1.0, retention: 100, ..ver_cfg(false) };
+        let t = cfg.open_with_clock(&dir, clock.clone()).map_err(|e| e.to_string())?;
+        put(&t, &[(b"k", b"v1")]).await?; // ts 1000
+        t.verif_flush().map_err(|e| e.to_string())?;
+        compact_all(&t).await?; // v1 now sits on the bottom level
+        clock.0.store(1010, Ordering::SeqCst);
+        {
+            let mut tx = t.begin_with_mode(Mode::WriteOnly).map_err(|e| e.to_string())?;
+            tx.replace(&b"k"[..], &b"r2"[..]).map_err(|e| e.to_string())?; // erases v1 for good
+            tx.commit().await.map_err(|e| e.to_string())?;
+        }
+        clock.0.store(1020, Ordering::SeqCst);
+        put(&t, &[(b"k", b"v3")]).await?;
+        t.verif_flush().map_err(|e| e.to_string())?;
+        let before = hist_list(&t, b"a", b"z", false, true, None)?;
+        // much later: the replace is outside the retention window when one compaction round runs
+        clock.0.store(5000, Ordering::SeqCst);
+        t.verif_compact_once().map_err(|e| e.to_string())?;
+        let lay = t.verif_layout().map_err(|e| e.to_string())?;
+        let after = hist_list(&t, b"a", b"z", false, true, None)?;
+        let g = get_at(&t, b"k", 1005).await?;
+        close(t).await;
+        let tss = |v: &Vec<(Vec<u8>, u64)>| v.iter().map(|(_, ts)| *ts).collect::<Vec<_>>();
+        if tss(&before) != vec![1020, 1010] {
+            return Err(format!("before compaction history lists {:?}, expected [1020, 1010]", tss(&before)));
+        }
+        if tss(&after).contains(&1000) || g.is_some() {
+            return Err(format!(
+                "k: v1@1000 (on the bottom level), replace@1010, v3@1020, retention 100; one compaction round at time 5000 dropped the replace as expired while v1 below it survives on a deeper level: history now lists {:?}, get_at(k, 1005) = {:?} (tables per level: {:?})",
+                tss(&after),
+                g.map(|v| String::from_utf8_lossy(&v).to_string()),
+                lay.tables.iter().map(|t| (t.level, t.id)).collect::<Vec<_>>()
+            ));
+        }
+        Ok(())
+    })
+}
+
+fn c10_open_reader_makes_compaction_drop_history(dir: PathBuf) -> ScenFut<'static> {
+    Box::pin(async move {
+        let cfg = Cfg { level_count: 3, l0_max_files: 1, max_bytes_for_level: 1 << 20, ..ver_cfg(false) };
+        let t = cfg.open(&dir).map_err(|e| e.to_string())?;
+        set_at(&t, b"k", b"v1", 10).await?;
+        set_at(&t, b"k", b"v2", 20).await?;
+        set_at(&t, b"k", b"v3", 30).await?;
+        // an unrelated reader is open while flush + compaction run
+        let reader = t.begin_with_mode(Mode::ReadOnly).map_err(|e| e.to_string())?;
+        t.verif_flush().map_err(|e| e.to_string())?;
+        compact_all(&t).await?;
+        drop(reader);
+        let g = get_at(&t, b"k", 15).await?;
+        let hist = hist_list(&t, b"a", b"z", false, true, None)?;
+        close(t).await;
+        if g.as_deref() != Some(&b"v1"[..]) || hist.len() != 3 {
+            return Err(format!(
+                "k: v1@10, v2@20, v3@30 with unlimited retention; flush + compaction while a reader is open: get_at(k, 15) = {:?}, history lists timestamps {:?} - older versions were discarded because a snapshot existed",
+                g.map(|v| String::from_utf8_lossy(&v).to_string()),
+                hist.iter().map(|(_, ts)| *ts).collect::<Vec<_>>()
+            ));
+        }
+        Ok(())
+    })
+}
+
 pub fn all() -> Vec<Scenario> {
     vec![
+        Scenario {
+            id: "C10-open-reader-makes-compaction-drop-history",
+            property: "C10",
+            title: "versioning with unlimited retention: compaction while a reader is open",
+            run: c10_open_reader_makes_compaction_drop_history,
+        },
+        Scenario {
+            id: "C10-retention-drops-replace-barrier",
+            property: "C10",
+            title: "finite retention: a replace expires above older versions on a deeper level",
+            run: c10_retention_drops_replace_barrier,
+        },
+        Scenario {
+            id: "C10-ts-range-out-of-order-memtable",
+            property: "C10",
+            title: "history with a timestamp range over unflushed versions written out of timestamp order",
+            run: c10_ts_range_out_of_order_memtable,
+        },
+        Scenario {
+            id: "C10-compaction-resurrects-erased-version",
+            property: "C10",
+            title: "compaction of set / hard delete / set with versioning on",
+            run: c10_compaction_resurrects_erased_version,
+        },
+        Scenario {
+            id: "C10-compaction-drops-version-above-replace",
+            property: "C10",
+            title: "compaction of replace / set / set with versioning on",
+            run: c10_compaction_drops_version_above_replace,
+        },
+        Scenario {
+            id: "C10-ts-range-lists-erased-version",
+            property: "C10",
+            title: "history with a timestamp range below a hard delete",
+            run: c10_ts_range_lists_erased_version,
+        },
+        Scenario {
+            id: "C10-backward-history-stops-at-hidden-key",
+            property: "C10",
+            title: "complete backward history traversal across a key without retained versions",
+            run: c10_backward_history_stops_at_hidden_key,
+        },
+        Scenario {
+            id: "C09-inverted-bounds-deep-level",
+            property: "C09",
+            title: "cursor with inverted bounds over tables on a level >= 1",
+            run: c09_inverted_bounds_deep_level,
+        },
         Scenario {
             id: "C03-batch-torn-by-rotation",
             property: "C03",
@@ -692,6 +999,31 @@ pub fn run_for(run: &mut Run, property: &str) -> Vec<String> {
                 open_failed.push(s.id.to_string());
             } else {
                 run.violation(&format!("directed scenario {}: {}", s.id, what), json!({"engine": "scenario", "scenario": s.id}));
+            }
+        }
+    }
+    // scenarios kept as recorded E1 histories (harness/scenarios/<id>.json)
+    if let Ok(rd) = std::fs::read_dir("/verif/harness/scenarios") {
+        let mut files: Vec<_> = rd.flatten().map(|e| e.path()).filter(|p| p.extension().map(|x| x == "json").unwrap_or(false)).collect();
+        files.sort();
+        for f in files {
+            let Ok(b) = std::fs::read(&f) else { continue };
+            let Ok(j) = serde_json::from_slice::<serde_json::Value>(&b) else { continue };
+            if j["property"].as_str() != Some(property) {
+                continue;
+            }
+            let id = j["id"].as_str().unwrap_or("?").to_string();
+            let title = j["title"].as_str().unwrap_or("").to_string();
+            let v = crate::campaign::replay_e1(&j);
+            results.push(json!({"scenario": id, "title": title, "holds": v.is_none(), "detail": v.as_ref().map(|v| v.what.clone())}));
+            if let Some(v) = v {
+                let what = format!("{}: [{}] step {}: {}", title, v.class, v.step, v.what);
+                if finding_open(&findings, &id) {
+                    run.known_finding(&id, &what);
+                    open_failed.push(id);
+                } else {
+                    run.violation(&format!("directed scenario {}: {}", id, what), json!({"engine": "scenario-file", "scenario": id, "file": f}));
+                }
             }
         }
     }
